@@ -182,6 +182,9 @@ class ArrayUnionMatcher(CombinationMatcher):
         self._partsize = partsize
 
         self._a = array("d", (0 for _ in xrange(self._partsize)))
+        # Which slots of the array hold a matching document (a score can
+        # legitimately be zero or negative)
+        self._in = bytearray(self._partsize)
         self._docnum = self._min_id()
         self._read_part()
 
@@ -203,6 +206,7 @@ class ArrayUnionMatcher(CombinationMatcher):
         limit = min(self._docnum + self._partsize, self._doccount)
         offset = self._docnum
         a = self._a
+        present = self._in = bytearray(self._partsize)
 
         # Clear the array
         for i in xrange(self._partsize):
@@ -212,6 +216,7 @@ class ArrayUnionMatcher(CombinationMatcher):
         for m in self._submatchers:
             while m.is_active() and m.id() < limit:
                 i = m.id() - offset
+                present[i] = 1
                 if scored:
                     a[i] += m.score() * boost
                 else:
@@ -222,13 +227,13 @@ class ArrayUnionMatcher(CombinationMatcher):
         self._limit = limit
 
     def _find_next(self):
-        a = self._a
+        present = self._in
         docnum = self._docnum
         offset = self._offset
         limit = self._limit
 
         while docnum < limit:
-            if a[docnum - offset] > 0:
+            if present[docnum - offset]:
                 break
             docnum += 1
 
@@ -298,9 +303,9 @@ class ArrayUnionMatcher(CombinationMatcher):
         offset = self._offset
         limit = self._limit
 
-        a = self._a
+        present = self._in
         while docnum < doccount:
-            if a[docnum - offset] > 0:
+            if present[docnum - offset]:
                 yield docnum
 
             docnum += 1
@@ -309,6 +314,7 @@ class ArrayUnionMatcher(CombinationMatcher):
                 self._read_part()
                 offset = self._offset
                 limit = self._limit
+                present = self._in
 
     def next(self):
         self._docnum += 1
